@@ -76,7 +76,13 @@ pub struct Soup {
     /// instructions on the executed path (as simulated by the generator)
     pub path_len: usize,
     pub forms: Vec<String>,
+    /// (action index, vector): an interrupt of that vector is requested and polled for before that action, if
+    /// CCR.I is clear then (every vector 1-31 outside the trap / call slots has its own RTE stub)
+    pub irqs: Vec<(u16, u8)>,
 }
+
+/// vectors the soups raise interrupts on: 1-31 without TRAPA #1-#3 (9-11) and the @@aa:8 slot (16)
+pub const IRQ_VECTORS: [u8; 27] = [1, 2, 3, 4, 5, 6, 7, 8, 12, 13, 14, 15, 17, 18, 19, 20, 21, 22, 23, 24, 25, 26, 27, 28, 29, 30, 31];
 
 /// data zones (lo, len): disjoint from every code placement
 const Z_RAM: (u32, u32) = (0xffd800, 0x800);
@@ -675,6 +681,10 @@ impl<'s, 'e, 'v> Gen<'s, 'e, 'v> {
 }
 
 pub fn build(e: &mut Ent, fl: Flavor) -> Soup {
+    build_irq(e, fl, false)
+}
+
+pub fn build_irq(e: &mut Ent, fl: Flavor, with_irqs: bool) -> Soup {
     // code placement: on-chip RAM below the data zone, or DRAM (near the load base or anywhere below the data zone)
     let base = match e.below(4) {
         0 | 1 => 0xffc000 + 2 * e.below(0x600),
@@ -707,6 +717,15 @@ pub fn build(e: &mut Ent, fl: Flavor) -> Soup {
         patches.push((h, hc));
         let top = (e.upper_byte() >> 24) as u8;
         patches.push((4 * (8 + n), vec![top, (h >> 16) as u8, (h >> 8) as u8, h as u8]));
+    }
+    if with_irqs {
+        // one RTE stub per interrupt vector, so that an entry through the wrong vector lands somewhere else
+        for &v in IRQ_VECTORS.iter() {
+            let h = base + 0x380 + 2 * v as u32;
+            patches.push((h, encode(&Insn::Rte)));
+            let top = (e.upper_byte() >> 24) as u8;
+            patches.push((4 * v as u32, vec![top, (h >> 16) as u8, (h >> 8) as u8, h as u8]));
+        }
     }
     // @@aa:8 slot for JSR
     let top = (e.upper_byte() >> 24) as u8;
@@ -776,23 +795,56 @@ pub fn build(e: &mut Ent, fl: Flavor) -> Soup {
     let mut image = vec![(base, code)];
     image.extend(patches);
     image.extend(e.env_noise());
-    Soup { prog: Prog { image, er, ccr, pc: base, bus }, stop, path_len, forms }
+    let mut irqs = vec![];
+    if with_irqs {
+        for _ in 0..e.below(7) {
+            irqs.push((e.below(path_len as u32 + 8) as u16, e.pick(&IRQ_VECTORS)));
+        }
+        // bursts: the same boundary several times (the second one is taken right after the first stub's RTE)
+        if e.chance(1, 3) && !irqs.is_empty() {
+            let (at, _) = irqs[0];
+            for _ in 0..1 + e.below(3) {
+                irqs.push((at, e.pick(&IRQ_VECTORS)));
+            }
+        }
+    }
+    Soup { prog: Prog { image, er, ccr, pc: base, bus }, stop, path_len, forms, irqs }
 }
 
 pub struct SoupRun {
     pub steps: usize,
     pub known: Vec<Quirk>,
     pub charges_compared: usize,
+    pub irqs_taken: usize,
 }
 
 /// Err(detail) on a violation
 pub fn run_soup(emu: &mut Emu, prog: &Prog, stop: u32, quirks: &[Quirk], charge: bool) -> Result<SoupRun, String> {
+    run_soup_irq(emu, prog, stop, quirks, charge, &[])
+}
+
+pub fn run_soup_irq(emu: &mut Emu, prog: &Prog, stop: u32, quirks: &[Quirk], charge: bool, irqs: &[(u16, u8)]) -> Result<SoupRun, String> {
     let opts = LsOpts { quirks, max_steps: 400, full_dram: false, compare_memory: true };
     let cfg: BusCfg = prog.bus;
     let mut violation: Option<String> = None;
     let mut compared = 0usize;
+    let mut todo: Vec<(u16, u8)> = irqs.to_vec();
+    todo.sort();
+    todo.reverse();
+    let mut taken = 0usize;
+    let mut last_was_irq = false;
     let out = lockstep(emu, prog, &opts, &mut |v: &View| {
-        if charge {
+        // an interrupt before this action? (requests are only raised while I is clear: then the poll must accept
+        // it at once, through its own vector - the lockstep compares frame, SP, CCR and PC with the reference)
+        if let Some(&(at, vec)) = todo.last() {
+            if (at as usize) <= v.idx && v.ccr & 0x80 == 0 && v.pc != stop {
+                todo.pop();
+                taken += 1;
+                last_was_irq = true;
+                return Ctl::Irq(vec);
+            }
+        }
+        if charge && !std::mem::take(&mut last_was_irq) {
             if let Some(step) = v.last {
                 if matches!(step.outcome, Outcome::Ok) && v.idx > 0 {
                     if let Some(exp) = total_cost(&step.cycles, &cfg) {
@@ -814,13 +866,22 @@ pub fn run_soup(emu: &mut Emu, prog: &Prog, stop: u32, quirks: &[Quirk], charge:
         return Err(m);
     }
     match out.end {
-        End::Stopped => Ok(SoupRun { steps: out.steps, known: out.known, charges_compared: compared }),
+        End::Stopped => {
+            if hooks_pending(emu) != 0 {
+                return Err(format!("{} interrupt requests are still pending at the end although every request was raised while I was clear and polled for at once", hooks_pending(emu)));
+            }
+            Ok(SoupRun { steps: out.steps, known: out.known, charges_compared: compared, irqs_taken: taken })
+        }
         End::Mismatch(m) => Err(m),
         // after an open finding's quirk has fired the emulator (and the reference that follows it) is on another
         // path than the one the generator simulated with the pure reference: where that path ends is not a verdict
-        _ if !out.known.is_empty() => Ok(SoupRun { steps: out.steps, known: out.known, charges_compared: compared }),
+        _ if !out.known.is_empty() => Ok(SoupRun { steps: out.steps, known: out.known, charges_compared: compared, irqs_taken: taken }),
         other => Err(format!("the soup did not reach its end (the generator simulated it to the end with the reference): {:?} after {} steps", other, out.steps)),
     }
+}
+
+fn hooks_pending(emu: &Emu) -> usize {
+    crate::cpu::verif_hooks::pending_interrupts(&emu.cpu)
 }
 
 fn soup_sig(m: &str) -> String {
@@ -829,6 +890,12 @@ fn soup_sig(m: &str) -> String {
 
 /// One phase of a check: `n` soups of flavour `fl`, sharded; returns the phase's stats (to be merged).
 pub fn phase(ctx: &Ctx, property: &'static str, fl: Flavor, n: u32, salt: u64, charge: bool) -> Stats {
+    phase_irq(ctx, property, fl, n, salt, charge, false)
+}
+
+/// `with_irqs`: interrupts of generated vectors are raised and polled for at generated instruction boundaries
+/// (whenever I is clear there); every vector has its own RTE stub, so the soup's outcome is what it is without them
+pub fn phase_irq(ctx: &Ctx, property: &'static str, fl: Flavor, n: u32, salt: u64, charge: bool, with_irqs: bool) -> Stats {
     let nshards = 32usize;
     // open findings of every property: a soup executes all instruction families
     let quirks: Vec<Quirk> = rx::ALL_QUIRKS.iter().copied().filter(|q| ctx.findings.all.iter().any(|f| f.status == "open" && f.signature == quirk_sig(*q))).collect();
@@ -837,8 +904,8 @@ pub fn phase(ctx: &Ctx, property: &'static str, fl: Flavor, n: u32, salt: u64, c
         let ent = entropy_n(700);
         set_shrink_iters(600);
         let _ = run_prop(mix(ctx.seed, salt + shard as u64), (n / nshards as u32).max(1), &ent, |raw, shrinking| {
-            let soup = build(&mut Ent::new(raw), fl);
-            let r = run_soup(&mut w.emu.borrow_mut(), &soup.prog, soup.stop, &quirks, charge);
+            let soup = build_irq(&mut Ent::new(raw), fl, with_irqs);
+            let r = run_soup_irq(&mut w.emu.borrow_mut(), &soup.prog, soup.stop, &quirks, charge, &soup.irqs);
             let mut st = w.stats.borrow_mut();
             match r {
                 Ok(run) => {
@@ -848,6 +915,12 @@ pub fn phase(ctx: &Ctx, property: &'static str, fl: Flavor, n: u32, salt: u64, c
                         st.class_n(&format!("soup ({}): instructions executed back to back", fl.name()), run.steps as u64);
                         if charge {
                             st.class_n(&format!("soup ({}): charges compared", fl.name()), run.charges_compared as u64);
+                        }
+                        if with_irqs {
+                            st.class_n(&format!("soup ({}): interrupts accepted between two instructions", fl.name()), run.irqs_taken as u64);
+                            if run.irqs_taken >= 2 {
+                                st.class(&format!("soup ({}): >= 2 interrupts in one soup", fl.name()));
+                            }
                         }
                         for q in &run.known {
                             if ctx.findings.is_open(property, &quirk_sig(*q)) {
@@ -879,7 +952,7 @@ pub fn phase(ctx: &Ctx, property: &'static str, fl: Flavor, n: u32, salt: u64, c
                         Ok(())
                     } else {
                         st.failures.clear();
-                        st.fail(Failure { signature: sig.clone(), detail: m, case: json!({"kind": "soup", "prog": soup.prog.to_json(), "stop": soup.stop, "charge": charge, "forms": soup.forms}) });
+                        st.fail(Failure { signature: sig.clone(), detail: m, case: json!({"kind": "soup", "prog": soup.prog.to_json(), "stop": soup.stop, "charge": charge, "forms": soup.forms, "irqs": soup.irqs.iter().map(|(a, v)| json!([a, v])).collect::<Vec<_>>()}) });
                         Err(sig)
                     }
                 }
@@ -890,6 +963,8 @@ pub fn phase(ctx: &Ctx, property: &'static str, fl: Flavor, n: u32, salt: u64, c
 }
 
 pub const RULE: &str = " Plus instruction soups: straight-line programs of 4-48 model-guided generated instructions of every implemented form (weighted to this property's family), executed back to back on one emulator state in lockstep with the reference (registers, CCR, PC and written bytes after every instruction, whole memory at the end), so that the operands of each instruction are what the previous ones left behind; a soup counts as non-trivial when it executes >= 8 instructions of >= 4 distinct forms.";
+
+pub const RULE_IRQ: &str = " Plus instruction soups with interrupts: straight-line programs of 4-48 model-guided generated instructions of every implemented form, executed back to back in lockstep with the reference, during which interrupts of generated vectors (1-31 outside the trap slots, each with its own RTE stub) are requested at generated instruction boundaries - also several at one boundary - whenever CCR.I is clear there: the poll must accept each at once through its own vector (frame, SP, I, PC compared), the stub's RTE must resume the soup, the soup must end in the state it ends in without interrupts (the reference's), and no request may be left pending.";
 
 pub fn is_soup_replay(v: &Value) -> bool {
     v.get("case").unwrap_or(v).get("kind").and_then(|k| k.as_str()) == Some("soup")
@@ -902,9 +977,10 @@ pub fn replay(ctx: &Ctx, property: &str, v: &Value) -> i32 {
         return 2;
     };
     let charge = case.get("charge").and_then(|c| c.as_bool()).unwrap_or(false);
+    let irqs: Vec<(u16, u8)> = case.get("irqs").and_then(|a| a.as_array()).map(|a| a.iter().filter_map(|p| Some((p.get(0)?.as_u64()? as u16, p.get(1)?.as_u64()? as u8))).collect()).unwrap_or_default();
     let quirks: Vec<Quirk> = rx::ALL_QUIRKS.iter().copied().filter(|q| ctx.findings.all.iter().any(|f| f.status == "open" && f.signature == quirk_sig(*q))).collect();
     let mut emu = Emu::new(&ctx.base);
-    match run_soup(&mut emu, &prog, stop as u32, &quirks, charge) {
+    match run_soup_irq(&mut emu, &prog, stop as u32, &quirks, charge, &irqs) {
         Ok(_) => {
             println!("replay {}: soup passes", property);
             0
